@@ -280,6 +280,8 @@ fn run_deflate_proto(s: &Script, ops: &[Vec<i64>], plain: &[u8], st: &mut Stats,
     let tail_grant = s.c_or("tail_grant", 4096).max(1) as usize;
     let mut finish_calls_since = 0usize;
     let mut out_at_first_finish = 0usize;
+    // the previous call was a Finish with output space that returned Ok
+    let mut prev_finish_ok = false;
     loop {
         let in_tail = opi >= ops.len();
         let (chunk, ol, flv) = if !in_tail {
@@ -376,6 +378,12 @@ fn run_deflate_proto(s: &Script, ops: &[Vec<i64>], plain: &[u8], st: &mut Stats,
                 if fl != MZFlush::Finish {
                     return viol("C14.stream_end_only_after_finish", format!("call {}: StreamEnd under flush {:?}", calls, fl));
                 }
+                // "exactly once all output is delivered": the call that hands over the last byte reports the end. A
+                // first StreamEnd from a call that did nothing means the previous Finish call had already delivered
+                // everything and said Ok.
+                if !progressed && finish_pending && prev_finish_ok {
+                    return viol("C14.stream_end_exactly_when_delivered", format!("call {}: StreamEnd with nothing consumed and nothing written; the previous Finish call had already delivered the last byte but returned Ok", calls));
+                }
                 ended = true;
             }
             Ok(_) => {
@@ -394,6 +402,7 @@ fn run_deflate_proto(s: &Script, ops: &[Vec<i64>], plain: &[u8], st: &mut Stats,
                 return viol("C14.unexpected_error", format!("call {}: {:?} (flush {:?}, {} in, {} out)", calls, e, fl, inb.len(), ol));
             }
         }
+        prev_finish_ok = fl == MZFlush::Finish && res.status == Ok(MZStatus::Ok);
         if fl == MZFlush::Finish && !ended {
             if !finish_pending {
                 finish_pending = true;
